@@ -22,6 +22,7 @@ import (
 	"regexp"
 	"sort"
 	"strings"
+	"time"
 )
 
 const probeScript = `#!/bin/bash
@@ -78,6 +79,13 @@ func runOrun(f []string) string {
 	os.WriteFile(filepath.Join(bin, "probe"), []byte(probeScript), 0755)
 	os.WriteFile(filepath.Join(bin, "filt"), []byte(filtScript), 0755)
 	r := runScript(unhx(t[3:]), stdin, pre, bin)
+	// the two helper programs were written a moment ago; a process forked by another worker in that moment may still
+	// hold the descriptor they were written through, and the kernel then refuses to execute them (ETXTBSY).  That
+	// says nothing about the script: run the case again.
+	for try := 0; try < 5 && strings.Contains(r.stderr, "Text file busy"); try++ {
+		time.Sleep(50 * time.Millisecond)
+		r = runScript(unhx(t[3:]), stdin, pre, bin)
+	}
 	if r.timeout {
 		return "transpile=ok timeout=1"
 	}
